@@ -1,7 +1,7 @@
 (* C08 - No network input can crash message validation or decoding.
    This file contains only statements, each closed by [exact], Print Assumptions, and Examples. *)
 From Coq Require Import List NArith ZArith Bool.
-From SSV Require Import Gen.ValidationConsts Validation.Model Validation.ProofsPanic.
+From SSV Require Import Gen.ValidationConsts Validation.Model Validation.Rules Validation.ProofsPanic Validation.ProofsHist.
 Import ListNotations.
 
 (* One validation, from any state: whatever the field values (all of [0,2^64) and beyond), the
@@ -17,6 +17,14 @@ Theorem C08_history_never_panics : forall c h vs,
   wf_cfg c -> Forall no_panic (snd (run c vs h)).
 Proof. exact run_np. Qed.
 Print Assumptions C08_history_never_panics.
+
+(* State invariant on every state reachable by earlier validations: the per-signer message counters
+   stay within their limits (so the Go ints they model can never overflow), whatever was received. *)
+Theorem C08_counters_bounded_on_reachable_states : forall c h, wf_cfg c ->
+  forall k s ss, get_signer s (get_cs k (fst (run c [] h))) = Some ss ->
+  forall kind, (0 <= cnt_get (ss_counts ss) kind <= limit_of (committee_size c k) kind)%Z.
+Proof. exact reachable_counts_bounded. Qed.
+Print Assumptions C08_counters_bounded_on_reachable_states.
 
 (* The leader computation, the site of finding F1: under the guard the code now evaluates first,
    RoundRobinProposer indexes inside the committee. *)
@@ -46,6 +54,12 @@ Print Assumptions C08_subnets_from_string_length.
 Theorem C08_shared_subnets_total : forall a b ml, shared_subnets true a b ml <> None.
 Proof. exact shared_subnets_total. Qed.
 Print Assumptions C08_shared_subnets_total.
+
+(* ... and the function before the repair is refuted by the replayed input (regression witness). *)
+Theorem C08_shared_subnets_unguarded_refuted :
+  shared_subnets false [0; 0; 0; 0; 0; 0; 0; 0; 0; 1]%N [0; 0; 0; 0; 0; 0; 0; 0]%N 1 = None.
+Proof. exact shared_subnets_unguarded_refuted. Qed.
+Print Assumptions C08_shared_subnets_unguarded_refuted.
 
 (* SignedNodeInfo.UnmarshalRecord after the JSON step: entries are indexed only below the length. *)
 Theorem C08_signed_node_info_total : forall k a b c d e, signed_node_info_post_json k a b c d e <> None.
